@@ -91,7 +91,7 @@ class Ctx:
         if not alt or os.path.abspath(alt) == REPO:
             return HARNESS
         h = hashlib.sha1(os.path.abspath(alt).encode()).hexdigest()[:10]
-        d = "/tmp/gvh-alt-" + h
+        d = "/tmp/gvhalt-" + h
         os.makedirs(d, exist_ok=True)
         for name in ("src", ".cargo"):
             shutil.rmtree(os.path.join(d, name), ignore_errors=True)
@@ -332,7 +332,7 @@ class Ctx:
         tree (VERIF_REPO, negative controls) must not overwrite it."""
         alt = os.environ.get("VERIF_REPO")
         if alt and os.path.abspath(alt) != REPO:
-            d = os.environ.get("VERIF_ALT_EVIDENCE", "/tmp/gvh-alt-evidence")
+            d = os.environ.get("VERIF_ALT_EVIDENCE", "/tmp/gvhalt-evidence")
         else:
             d = os.path.join(VERIF, "evidence")
         os.makedirs(os.path.join(d, "replays"), exist_ok=True)
@@ -416,4 +416,12 @@ def run_check(pid, fn, argv):
         sys.exit(2)
     except subprocess.TimeoutExpired as e:
         log("TOOL-ERROR: timeout %s" % e)
+        sys.exit(2)
+    except SystemExit:
+        raise
+    except BaseException as e:
+        # any failure of the machinery itself is a tool error (exit 2), never a violation (exit 1)
+        import traceback
+        traceback.print_exc()
+        log("TOOL-ERROR: %s: %s" % (type(e).__name__, e))
         sys.exit(2)
